@@ -68,9 +68,11 @@ func tableForm(t *rapid.T, form string) *core.TypeSpec {
 func genTableTV(t *rapid.T) (TV, string) {
 	var ct *core.TypeSpec
 	var cell string
+	// rapid favours small draws; a wide salt spreads the cell choice evenly over the table
+	salt := rapid.IntRange(0, 1<<30).Draw(t, "cellsalt")
 	if rapid.IntRange(0, 2).Draw(t, "cellkind") > 0 {
-		ki := rapid.IntRange(0, len(tableKeyKinds)-1).Draw(t, "cellkey")
-		vf := tableValForms[rapid.IntRange(0, len(tableValForms)-1).Draw(t, "cellval")]
+		ki := (rapid.IntRange(0, len(tableKeyKinds)-1).Draw(t, "cellkey") + salt) % len(tableKeyKinds)
+		vf := tableValForms[(rapid.IntRange(0, len(tableValForms)-1).Draw(t, "cellval")+salt/16)%len(tableValForms)]
 		var key *core.TypeSpec
 		if tableKeyKinds[ki] == core.KStruct {
 			key = tableSmallStruct(true)
@@ -80,7 +82,7 @@ func genTableTV(t *rapid.T) (TV, string) {
 		ct = &core.TypeSpec{Kind: core.KMap, Key: key, Elem: tableForm(t, vf)}
 		cell = fmt.Sprintf("cell:map<%s:%s>", tableKeyKinds[ki], vf)
 	} else {
-		vf := tableValForms[rapid.IntRange(0, len(tableValForms)-1).Draw(t, "cellelem")]
+		vf := tableValForms[(rapid.IntRange(0, len(tableValForms)-1).Draw(t, "cellelem")+salt)%len(tableValForms)]
 		k := core.KList
 		if rapid.Bool().Draw(t, "cellset") {
 			k = core.KSet
@@ -94,7 +96,7 @@ func genTableTV(t *rapid.T) (TV, string) {
 		{Name: "Cell_2", ID: 2, Req: req, Type: ct},
 		{Name: "Post_3", ID: 3, Type: &core.TypeSpec{Kind: core.KString}},
 	}}
-	cnt := tableCounts[rapid.IntRange(0, len(tableCounts)-1).Draw(t, "cellcount")]
+	cnt := tableCounts[(rapid.IntRange(0, len(tableCounts)-1).Draw(t, "cellcount")+salt/256)%len(tableCounts)]
 	cfg := core.GenCfg{CountChoices: []int{cnt, cnt, 2, 1}, MaxBytes: 64 << 10, NoNil: cnt > 0}
 	v := core.GenStructVal(t, cfg, s)
 	return TV{S: s, V: v}, fmt.Sprintf("%s#%d", cell, cnt)
